@@ -176,17 +176,19 @@ SPECS["C01"] = (
  "   transformations | payload xor keystream | MKI | tag over body||ROC) and protect_fun the pure function the monadic sender is\n"
  "   proved to refine.  Scope of the END-TO-END theorems: explicit stream for the packet's SSRC (the wildcard clone path is covered\n"
  "   by C13 / C14 / C17), internal crypto (AES-ICM, NULL cipher, HMAC-SHA1, NULL auth), any CSRC count / extension shape / payload\n"
- "   length / MKI setting / alias mode on either side, streams WITHOUT cryptex and WITHOUT a header-extension cipher (plain_stream).\n"
- "   For the RFC 6904 and cryptex classes the theorems below give the algebraic cores (the element walk is an involution for both\n"
- "   forms and on a whole block; the cryptex CSRC shuffle is undone by its inverse) and evaluated examples through the full model;\n"
- "   their end-to-end statement is the part still named PARTIAL.  The round trip premises are those a peer session with the same\n"
+ "   length / MKI setting / alias mode on either side, every stream class of the property's domain: plain, RFC 6904 header-extension\n"
+ "   encryption, cryptex (in_domain_stream: cryptex and an RFC 6904 cipher are not combined - that combination is outside the\n"
+ "   domain and is refuted by evaluation below).  The round trip premises are those a peer session with the same\n"
  "   policy in the same index state satisfies: same keys / services / MKI configuration, same index estimate, packet not yet seen.",
- "From Srtp Require Import Util Constants KeyLimit Rdb Rdbx Icm World Stream Rtp Session WfProofs RtcpSpec RtpSpec XtnProofs CryptexProofs RtpSpecProofs RtpXtnApply RtpRoundTrip CipherChunk RtpRoundTripXtn RtpRoundTripCryptex RtpRoundTripCryptexEx RtpExamples.",
+ "From Srtp Require Import Util Constants KeyLimit Rdb Rdbx Icm World Stream Rtp Session WfProofs RtcpSpec RtpSpec XtnProofs CryptexProofs RtpSpecProofs RtpXtnApply RtpRoundTrip CipherChunk RtpRoundTripXtn RtpRoundTripCryptex RtpRoundTripCryptexEx RtpRefineXtn RtpRefineCryptex RtpEndToEnd RtpExamples RtpRefineExamples.",
  [("the stream cipher is an involution: applying it again at the same state gives the input back", "RtcpSpec.v", "cipher_encrypt_involutive"),
   ("what a successful srtp_protect emits, byte for byte: rtp_wire for the selected key and the estimated index", "RtpSpecProofs.v", "protect_emits_rtp_wire"),
   ("the receiver selects the sender's key: first key without MKI, the named key under distinct MKI values", "RtpRoundTrip.v", "key_selected_nodup"),
   ("round trip of the monadic receiver on a wire packet: status ok, length, bytes, no out-of-bounds access, input untouched (any alias mode, any destination prefill)", "RtpRoundTrip.v", "srtp_round_trip"),
   ("end to end: whatever srtp_protect produced is accepted by the peer and decodes to the byte-identical packet", "RtpRoundTrip.v", "srtp_protect_unprotect"),
+  ("WHOLE DOMAIN, sender: srtp_protect computes protect_fun and emits rtp_wire for every stream that does not combine cryptex with RFC 6904", "RtpEndToEnd.v", "protect_refines_domain"),
+  ("", "RtpEndToEnd.v", "protect_emits_rtp_wire_domain"),
+  ("WHOLE DOMAIN, end to end: any packet of octets srtp_protect accepts is returned byte-identical by the peer's srtp_unprotect (status ok, same length, no out-of-bounds access, input untouched), any alias mode on either side", "RtpEndToEnd.v", "srtp_protect_unprotect_domain"),
   ("RFC 6904 class: the same receiver theorem with a header-extension cipher (k_xtn_c arbitrary), any alias mode", "RtpRoundTripXtn.v", "srtp_round_trip_xtn"),
   ("cryptex class (RFC 9335, CSRCs included; in place = shuffle + one run, out of place = CSRC run + rest): any s_cryptex setting without header-extension cipher; profile_octets holds for every list of octets", "RtpRoundTripCryptex.v", "srtp_round_trip_noxtn"),
   ("", "RtpRoundTripCryptex.v", "srtp_round_trip_cryptex"),
@@ -215,13 +217,16 @@ SPECS["C12"] = (
  "   blocks with an alias flag (World.v); each theorem says the model REFINES a pure function of (session, packet bytes, capacity),\n"
  "   so status, length, output octets and final session cannot depend on the alias mode or on what the destination held, and the\n"
  "   out-of-place call leaves its input alone.  SRTCP: both functions, every input (valid, replayed, tampered, malformed).\n"
- "   SRTP: srtp_unprotect for every input and every well-formed stream (no class restriction); srtp_protect for streams without\n"
- "   cryptex / header-extension cipher (every input); srtp_protect on the RFC 6904 and cryptex classes is covered by the evaluated\n"
- "   examples and the four-modes correspondence family (PARTIAL until RtpRefineXtn / RtpRefineCryptex land).  Known finding F16: cryptex TOGETHER WITH RFC 6904\n"
+ "   SRTP: srtp_unprotect for every input and every well-formed stream (no class restriction); srtp_protect for every input and\n"
+ "   every stream that does not combine cryptex with an RFC 6904 cipher (in_domain_stream).  Known finding F16: cryptex TOGETHER WITH RFC 6904\n"
  "   (outside C01's domain) is alias dependent; the refutation below is evaluated on the model and replayed on the library.",
- "From Srtp Require Import Util Constants KeyLimit Rdb Rdbx Icm World Stream Rtp Rtcp Session WfProofs RtcpSpec RtcpSpecProofs RtpSpec RtpSpecProofs RtpRoundTrip RtpRoundTripCryptex RtpUnprotSpec RtpUnprotProofs RtpExamples.",
+ "From Srtp Require Import Util Constants KeyLimit Rdb Rdbx Icm World Stream Rtp Rtcp Session WfProofs RtcpSpec RtcpSpecProofs RtpSpec RtpSpecProofs RtpRoundTrip RtpRoundTripCryptex RtpUnprotSpec RtpUnprotProofs RtpRefineXtn RtpRefineCryptex RtpEndToEnd RtpExamples RtpRefineExamples.",
  [("srtp_protect computes protect_fun of (session, MKI index, capacity, packet): whatever the alias mode and the prefill", "RtpSpecProofs.v", "protect_refines"),
   ("... hence in place vs out of place: same status, length, output octets, final session; source untouched", "RtpSpecProofs.v", "protect_alias_independent"),
+  ("srtp_protect, whole domain (plain, RFC 6904, cryptex): refinement and alias independence", "RtpEndToEnd.v", "protect_refines_domain"),
+  ("", "RtpEndToEnd.v", "protect_alias_independent_domain"),
+  ("non-vacuity: concrete RFC 6904 / cryptex sessions and packets meet the hypotheses", "RtpRefineExamples.v", "xtn_theorem_applies"),
+  ("", "RtpRefineExamples.v", "cryptex_theorem_applies"),
   ("srtp_unprotect computes unprotect_fun of (session, capacity, input octets) for EVERY input (valid, replayed, tampered, malformed) and EVERY well-formed stream (plain, RFC 6904, cryptex, both): whatever the alias mode and the prefill", "RtpUnprotProofs.v", "unprotect_refines"),
   ("... hence two arbitrary calls with the same session, capacity and input octets agree on status, length, output octets and final session, and neither touches its source", "RtpUnprotProofs.v", "unprotect_buffers_independent"),
   ("in place vs out of place", "RtpUnprotProofs.v", "unprotect_alias_independent"),
